@@ -109,6 +109,8 @@ class Lib:
 
     def getitem(self, ex, v, idx):
         from .exec import _ObjDict
+        if isinstance(idx, SliceObj):
+            return self.getslice(ex, v, idx.lo, idx.hi, idx.step)
         if isinstance(v, _ObjDict):
             if idx not in v.obj.fields:
                 ex.raise_builtin(KeyError, idx)
@@ -203,6 +205,10 @@ class Lib:
 
     def setitem(self, ex, v, idx, value):
         from .exec import _ObjDict
+        if isinstance(idx, SliceObj):
+            if idx.step is not None and idx.step != 1:
+                raise OutOfReach("extended slice assignment")
+            return self.setslice(ex, v, idx.lo, idx.hi, value)
         if isinstance(v, _ObjDict):
             v.obj.fields[idx] = value
             return
@@ -392,6 +398,13 @@ class Lib:
         raise OutOfReach(f"with-statement on {cm!r}")
 
 
+class SliceObj:
+    """the builtin slice(lo, hi[, step]) as a value"""
+
+    def __init__(self, lo, hi, step=None):
+        self.lo, self.hi, self.step = lo, hi, step
+
+
 class RevSlice:
     """lst[start::-1] of a list of unknown length, with Python's clamping:
     elements lst[s], lst[s-1], ..., lst[0] where s = min(start, len-1)
@@ -431,6 +444,13 @@ def install(ex):
 # ======================================================================
 #                               builtins
 # ======================================================================
+
+@model(slice)
+def m_slice(ex, args, kw):
+    if len(args) == 1:
+        return SliceObj(None, args[0])
+    return SliceObj(*args)
+
 
 @model(len)
 def m_len(ex, args, kw):
